@@ -1,4 +1,4 @@
-CONSTANTS Universe = "T2"  NLocs = 2  Wrap = FALSE  MaxDepth = 3  RelateAll = FALSE
+CONSTANTS Universe = "T2"  NLocs = 2  Wrap = FALSE  Wrap2 = FALSE  Family = "none"  MaxDepth = 3  RelateAll = FALSE
 CONSTANTS Types = {"PRIMARY"}
 CONSTANTS PathSeq <- MCPathSeq  LocSeq <- MCLocSeq  WrapsOf <- MCWrapsOf  MountFrom <- MCMountFrom  MountTo <- MCMountTo
 INIT Init
